@@ -637,6 +637,35 @@ func TestVerifOPRF(t *testing.T) {
 				if ev, err = oEvaluate(su, m, sk, req, infoSrv); err != nil {
 					return
 				}
+				if what == "batch/blinds2" {
+					// the same request evaluated again (a retry, a second replica):
+					// the request is an operand, the second answer is the first one
+					elts := func(es []group.Element) (o [][]byte) {
+						for _, e := range es {
+							o = append(o, mustElt(e))
+						}
+						return
+					}
+					reqWas, evWas := elts(req.Elements), elts(ev.Elements)
+					stage = "evaluate-again"
+					var evB *oprf.Evaluation
+					if evB, err = oEvaluate(su, m, sk, req, infoSrv); err != nil {
+						return
+					}
+					lib.Count("oprf:request-evaluated-twice")
+					reqNow, evNow, evFirstNow := elts(req.Elements), elts(evB.Elements), elts(ev.Elements)
+					for i := range reqWas {
+						if !lib.Eq(reqWas[i], reqNow[i]) {
+							viol("request-changed-by-Evaluate", "", "i", i, "sk", skb, "before", reqWas[i], "after", reqNow[i])
+							break
+						}
+						if !lib.Eq(evWas[i], evNow[i]) || !lib.Eq(evWas[i], evFirstNow[i]) {
+							viol("second-evaluation-differs", "", "i", i, "sk", skb, "first", evWas[i], "second", evNow[i], "first_read_again", evFirstNow[i])
+							break
+						}
+					}
+					ev = evB
+				}
 				stage = "finalize"
 				outs, err = oFinalize(su, m, pk, fd, ev, infoCli)
 			})
